@@ -479,6 +479,6 @@ META = dict(
         "every method of Stacker, its subclasses and its loc indexer that stores into the stacked frame reaches "
         "_update afterwards on every path (path enumeration); write-back assigns each list the stack restricted to "
         "the list's own columns and its own iloc slice; every stackable name is a declared field of some list of the "
-        "chart; mapset stacks pair charts and rows positionally; _update's effect set is exactly the stacked lists."),
+        "chart; mapset stacks pair charts and rows positionally; _update's effect set is exactly the stacked lists. Every definition of stack() in the chart hierarchy selects exactly the declared slots (R5); a view of the stacked frame kept on the stacker cannot coexist with a re-binding of that frame (R8); chart operations re-defined below Map / MapSet forward to the decided definition (R9)."),
     not_decided="pandas' own arithmetic and broadcasting",
 )
